@@ -24,6 +24,9 @@ PNode(n) ==
      busy |-> lead'[n] # NULL /\ lead'[n].busy,
      lastapp |-> IF fol'[n] # NULL THEN fol'[n].lastApp ELSE -1,
      parked |-> (lead'[n] # NULL /\ lead'[n].cbq # {}) \/ (fol'[n] # NULL /\ fol'[n].parked # {}),
+     \* sync requests queued behind the round in progress (the first one started the round)
+     queued |-> IF lead'[n] # NULL /\ lead'[n].cbq # {} THEN Cardinality(lead'[n].cbq) - 1
+                ELSE IF fol'[n] # NULL /\ fol'[n].parked # {} THEN Cardinality(fol'[n].parked) - 1 ELSE 0,
      cursors |-> [f \in {x \in Nodes : lead'[n] # NULL /\ lead'[n].cur[x] # NULL} |-> lead'[n].cur[f].ack]]
 PStreams == {[l |-> k[1], f |-> k[2],
               app |-> [i \in 1..Len(streams'[k].app) |-> [o |-> streams'[k].app[i].o, t |-> streams'[k].app[i].t, c |-> streams'[k].app[i].c]],
